@@ -177,37 +177,37 @@ type c08Conn struct {
 }
 
 type c08Client struct {
-	idx     int
-	id      int64
-	secret  string
-	cur     *c08Conn
-	zombies []*c08Conn        // abandoned by the client, not yet cleaned up by their node
-	closed  map[string]string // connID -> how it ended (one map shared by all clients of a history)
-	active  bool              // took part in this history (a provisioned but idle identity is not looked up)
-	lost    []*c08Conn        // connections this identity lost to another client's handshake on them (still open)
-	cloudDirty string         // cloud-control view not judged (see judgeCloud) until the next keep-alive on cur
-	unsure  string            // the node dropped cur on its own and the harness has not yet played the adapter cleanup: no verdicts
-	lastNode int              // node of the most recent connect
-	broken  string            // signature of the running failure episode ("" = last lookup fine)
-	cleaned int               // lookup rounds for which a just-observed cleanup of an abandoned connection counts as the cause of a loss
+	idx        int
+	id         int64
+	secret     string
+	cur        *c08Conn
+	zombies    []*c08Conn        // abandoned by the client, not yet cleaned up by their node
+	closed     map[string]string // connID -> how it ended (one map shared by all clients of a history)
+	active     bool              // took part in this history (a provisioned but idle identity is not looked up)
+	lost       []*c08Conn        // connections this identity lost to another client's handshake on them (still open)
+	cloudDirty string            // cloud-control view not judged (see judgeCloud) until the next keep-alive on cur
+	unsure     string            // the node dropped cur on its own and the harness has not yet played the adapter cleanup: no verdicts
+	lastNode   int               // node of the most recent connect
+	broken     string            // signature of the running failure episode ("" = last lookup fine)
+	cleaned    int               // lookup rounds for which a just-observed cleanup of an abandoned connection counts as the cause of a loss
 }
 
 type c08World struct {
-	run     *vk.Run
-	be      *c08Backend
-	ttl     time.Duration
-	sweeper bool
-	nodes   []*miniNode
-	clients []*c08Client
-	trace   []string
-	kinds   []string
-	lastEv  string
-	lastCl  int
-	herr    string
-	ctx     context.Context
-	noSweepUnregister bool // observed: the sweeper's close leaves the connection record behind
-	spareID int64  // a provisioned second identity reused across the histories of a world
-	spareSecret string
+	run               *vk.Run
+	be                *c08Backend
+	ttl               time.Duration
+	sweeper           bool
+	nodes             []*miniNode
+	clients           []*c08Client
+	trace             []string
+	kinds             []string
+	lastEv            string
+	lastCl            int
+	herr              string
+	ctx               context.Context
+	noSweepUnregister bool  // observed: the sweeper's close leaves the connection record behind
+	spareID           int64 // a provisioned second identity reused across the histories of a world
+	spareSecret       string
 }
 
 func c08NodeName(i int) string { return fmt.Sprintf("node-%c", 'a'+i) }
@@ -1063,10 +1063,16 @@ func TestVerifC08Exhaustive(t *testing.T) {
 	run := vk.Start(t, "C08", "exhaustive")
 	defer run.Finish()
 	depth := run.Pick(4, 5)
-	run.Rule(fmt.Sprintf("per backend (%s), registration lifetime 5 min, two nodes, one fresh client per sequence: every applicable sequence of %d events over {connect@A, connect@B, heartbeat, re-login on current, late cleanup of the oldest abandoned connection, close current (transport end), close current (Disconnect command), tunnel-type connection on B, late heartbeat on the newest abandoned connection, current connection closed by the node's real stale sweeper (connection aged white-box) followed by the adapter cleanup}; all nodes looked up after every event and after closing what is left; distinct = backend x event sequence; non-trivial = contains a reconnect or a close", strings.Join(c08BackendNames, ", "), depth))
-	for _, be := range c08BackendNames {
-		w := c08NewWorld(t, run, be, c08LongTTL, 2, false)
-		w.provisionSpare()
+	run.Rule(fmt.Sprintf("per backend (%s), registration lifetime 5 min, two nodes, one fresh client per sequence: every applicable sequence of %d events over {connect@A, connect@B, heartbeat, re-login on current, late cleanup of the oldest abandoned connection, close current (transport end), close current (Disconnect command), tunnel-type connection on B, late heartbeat on the newest abandoned connection, current connection closed by the node's real stale sweeper (connection aged white-box) followed by the adapter cleanup, a second provisioned identity re-authenticating (real challenge-response) on the client's current connection}; the connection-state lookup and the cloud-control view (GetClientNodeID) of every node are judged; all nodes looked up after every event and after closing what is left; distinct = backend x event sequence; non-trivial = contains a reconnect or a close", strings.Join(c08BackendNames, ", "), depth))
+	// the backends are independent worlds (own store, own nodes): enumerate them side by side
+	worlds := make([]*c08World, len(c08BackendNames))
+	for i, be := range c08BackendNames {
+		worlds[i] = c08NewWorld(t, run, be, c08LongTTL, 2, false)
+		worlds[i].provisionSpare()
+	}
+	var wg sync.WaitGroup
+	for i, be := range c08BackendNames {
+		w, be := worlds[i], be
 		var rec func(seq []string)
 		rec = func(seq []string) {
 			if run.Violations() > 20 || w.herr != "" {
@@ -1099,11 +1105,18 @@ func TestVerifC08Exhaustive(t *testing.T) {
 				rec(append(append([]string(nil), seq...), s))
 			}
 		}
-		rec(nil)
+		wg.Add(1)
+		go func() {
+			defer wg.Done()
+			rec(nil)
+		}()
+	}
+	wg.Wait()
+	for i, w := range worlds {
 		herr := w.herr
 		w.close()
 		if herr != "" {
-			t.Fatalf("c08: harness error on backend %s: %s", be, herr)
+			t.Fatalf("c08: harness error on backend %s: %s", c08BackendNames[i], herr)
 		}
 	}
 	run.Exhaustive(true)
@@ -1149,42 +1162,54 @@ func TestVerifC08Random(t *testing.T) {
 	run := vk.Start(t, "C08", "random")
 	defer run.Finish()
 	nh := run.Pick(60, 800)
-	run.Rule(fmt.Sprintf("per backend %d seeded histories of 10-40 events over two clients and three nodes, registration lifetime 5 min: connect on a random node (reconnects leave the old connection to its node), heartbeat, re-login, late cleanup of the oldest/newest abandoned connection, close of the current connection (transport end / Disconnect command / swept by the node's real stale sweeper), late heartbeats on abandoned connections, tunnel-type connections; all nodes looked up for both clients after every event; distinct = backend x event-kind sequence of a history containing a reconnect or a close", nh))
-	for _, be := range c08BackendNames {
-		r := run.Rand("hist|" + be)
-		w := c08NewWorld(t, run, be, c08LongTTL, 3, false)
-		for h := 0; h < nh && run.Violations() <= 20 && w.herr == ""; h++ {
-			w.reset(2)
-			n := 10 + r.Intn(31)
-			run.Case(fmt.Sprintf("%s/h%d", be, h), nil)
-			for i := 0; i < n && w.herr == ""; i++ {
-				cl := w.clients[r.Intn(2)]
-				if r.Intn(4) == 0 {
-					cl = w.clients[0]
+	run.Rule(fmt.Sprintf("per backend %d seeded histories of 10-40 events over two clients and three nodes, registration lifetime 5 min: connect on a random node (reconnects leave the old connection to its node), heartbeat, re-login, late cleanup of the oldest/newest abandoned connection, close of the current connection (transport end / Disconnect command / swept by the node's real stale sweeper), late heartbeats on abandoned connections, re-login on an abandoned connection, re-login of the other client on this client's current connection, tunnel-type connections; all nodes looked up for both clients after every event; distinct = backend x event-kind sequence of a history containing a reconnect or a close", nh))
+	worlds := make([]*c08World, len(c08BackendNames))
+	for i, be := range c08BackendNames {
+		worlds[i] = c08NewWorld(t, run, be, c08LongTTL, 3, false)
+	}
+	var wg sync.WaitGroup
+	for i, be := range c08BackendNames {
+		w, be := worlds[i], be
+		r := run.Rand("hist|" + be) // one stream per backend: the histories do not depend on scheduling
+		wg.Add(1)
+		go func() {
+			defer wg.Done()
+			for h := 0; h < nh && run.Violations() <= 20 && w.herr == ""; h++ {
+				w.reset(2)
+				n := 10 + r.Intn(31)
+				run.Case(fmt.Sprintf("%s/h%d", be, h), nil)
+				for i := 0; i < n && w.herr == ""; i++ {
+					cl := w.clients[r.Intn(2)]
+					if r.Intn(4) == 0 {
+						cl = w.clients[0]
+					}
+					done := false
+					for try := 0; try < 8 && !done; try++ {
+						sym := c08Pick(r, cl)
+						done = w.apply(cl, sym)
+					}
+					if done {
+						w.check()
+						run.Eval(1)
+					}
 				}
-				done := false
-				for try := 0; try < 8 && !done; try++ {
-					sym := c08Pick(r, cl)
-					done = w.apply(cl, sym)
+				kinds := append([]string(nil), w.kinds...)
+				w.closeAll()
+				if c08NonTrivial(kinds) {
+					run.Distinct(be + "|" + strings.Join(kinds, ","))
 				}
-				if done {
-					w.check()
-					run.Eval(1)
+				if h < 1 {
+					run.Sample(map[string]any{"backend": be, "events": w.tail()})
 				}
 			}
-			kinds := append([]string(nil), w.kinds...)
-			w.closeAll()
-			if c08NonTrivial(kinds) {
-				run.Distinct(be + "|" + strings.Join(kinds, ","))
-			}
-			if h < 1 {
-				run.Sample(map[string]any{"backend": be, "events": w.tail()})
-			}
-		}
+		}()
+	}
+	wg.Wait()
+	for i, w := range worlds {
 		herr := w.herr
 		w.close()
 		if herr != "" {
-			t.Fatalf("c08: harness error on backend %s: %s", be, herr)
+			t.Fatalf("c08: harness error on backend %s: %s", c08BackendNames[i], herr)
 		}
 	}
 	c08Floors(run, "reconnect_then_late_cleanup", "reconnect_other_node", "zombie_heartbeat_while_current_elsewhere", "last_conn_swept", "identity_changes", "relogins_on_abandoned")
